@@ -60,7 +60,8 @@ func zzSCVerify(c *x509.Certificate, opts x509.VerifyOptions) ([][]*x509.Certifi
 		}
 		return false
 	}
-	if opts.DNSName != "zz.example" {
+	// an empty name means "no name check" in x509.Verify
+	if opts.DNSName != "" && opts.DNSName != "zz.example" {
 		return nil, errors.New("zz: certificate is not valid for the requested name")
 	}
 	// the certificates of this harness are valid at the configured time only
@@ -82,7 +83,7 @@ func zzSCVerify(c *x509.Certificate, opts x509.VerifyOptions) ([][]*x509.Certifi
 //verif:property C08
 //verif:property C06
 //verif:expect-reach end accepted rejected
-//verif:bound signing and encryption certificate each issued by {the trusted root, an intermediate CA under it, an unknown CA}; the intermediate sent as third certificate or not; configured server name right or wrong; InsecureSkipVerify on / off; application callback VerifyPeerCertificate unset / accepting / refusing; symbolic run: parsing and x509 verification replaced by their contracts over the pools actually passed; natively a real SM2 PKI, real parsing and real x509 verification
+//verif:bound signing and encryption certificate each issued by {the trusted root, an intermediate CA under it, an unknown CA}; the intermediate sent as third certificate or not; configured server name right, another host name or an IP literal (the ClientHello carries the SNI name the real client would send: none for an IP); InsecureSkipVerify on / off; application callback VerifyPeerCertificate unset / accepting / refusing; symbolic run: parsing and x509 verification replaced by their contracts over the pools actually passed; natively a real SM2 PKI, real parsing and real x509 verification
 //verif:outside the details of path validation (C10); the rest of the handshake (zzH_c08_client_flow)
 //verif:stub (*github.com/tjfoc/gmsm/gmtls.Conn).readHandshake zzSCReadHandshake
 //verif:stub (*github.com/tjfoc/gmsm/gmtls.Conn).sendAlert zzStubSendAlert08
@@ -96,7 +97,12 @@ func zzH_c08_server_cert() {
 	nameOK := vChoice("serverNameMatches", 2) == 1
 	cfg := &Config{ServerName: "zz.example", Time: func() time.Time { return time.Unix(1700000000, 0) }}
 	if !nameOK {
-		cfg.ServerName = "other.example"
+		// another host name, or an IP literal (for which no SNI name is sent)
+		cfg.ServerName = []string{"other.example", "10.1.2.3"}[vChoice("wrongName", 2)]
+	}
+	sni := cfg.ServerName // what makeClientHello puts into the server_name extension
+	if sni == "10.1.2.3" {
+		sni = ""
 	}
 	var chain [][]byte
 	if vNative() {
@@ -157,7 +163,7 @@ func zzH_c08_server_cert() {
 		}
 	}
 	hs := &clientHandshakeStateGM{c: c, suite: suite,
-		hello:       &clientHelloMsg{vers: VersionGMSSL, random: make([]byte, 32)},
+		hello:       &clientHelloMsg{vers: VersionGMSSL, random: make([]byte, 32), serverName: sni},
 		serverHello: &serverHelloMsg{vers: VersionGMSSL, random: make([]byte, 32)}}
 	// the application's own verification callback: consulted once the built-in verification
 	// has succeeded (or was switched off), and its refusal is final
